@@ -730,6 +730,18 @@ def make_c16_oracle(by_id):
             want = [w["head"].split(b"\r\n")[0]] + lines
             if got != want:
                 found.append(("resume", "request lines %r, expected %r" % (got, want)))
+            elif cl.play_requests_first(sc):
+                # (only when every request byte was offered before the first response byte: otherwise the server's answers can
+                # legitimately arrive before the requests they answer)
+                # no transaction beyond those requests (a response parsed "without request" would add one), and every inner request
+                # got the response that was sent for it
+                live = [t for t in slots if t]
+                if len(live) != len(want):
+                    found.append(("resume", "%d transactions for %d requests (a response was taken for one without request)" % (len(live), len(want))))
+                elif w["after"]:
+                    sns = [int(t.get("sn", -1)) for t in live[1:]]
+                    if any(x != 200 for x in sns):
+                        found.append(("resume", "responses of the requests after CONNECT: status numbers %r, 200 was sent for each" % sns))
         return found
     return oracle
 
